@@ -340,7 +340,8 @@ func (sp *SAMLServiceProvider) SigningContext() *dsig.SigningContext {
 	verifPoint("signingctx.locked", 0, 0)
 
 	signing := sp.spSigningKeyStoreOverride
-	if signing == nil {
+	if signing == nil && sp.SPSigningKeyStore == nil {
+		// No explicit signing key: default to the encryption key (same precedence as getSigningCert)
 		signing = sp.spKeyStoreOverride
 	}
 	var err error
